@@ -155,6 +155,48 @@ func genRelayScript(r *gen.Rand, w *gen.Writer) script {
 	return s
 }
 
+// genIssueHistory: 2..3 /go requests on one app. The earlier ones attach With/WithInput data and
+// mostly do NOT complete the redirect (plain answer, or Back() without Referer/fallback), the last
+// one completes it - usually with other input names and fewer fields, so that anything an earlier
+// request left in the pooled Redirect / ctx would show up in its cookie.
+func genIssueHistory(r *gen.Rand, w *gen.Writer) ([]script, []string) {
+	n := 2
+	if r.Chance(1, 4) {
+		n = 3
+	}
+	var steps []script
+	var ends []string
+	for i := 0; i < n; i++ {
+		s := genScript(r, w, false)
+		last := i == n-1
+		if !last {
+			// make sure there is something to leave behind
+			if len(s.olds) == 0 {
+				s.olds = [][2]string{{gen.Pick(r, []string{"password", "email", "token"}), gen.Pick(r, inputWords)}, {"user", "tom"}}
+			}
+			if len(s.wipos) == 0 {
+				s.wipos = []int{len(s.flashes)}
+			}
+			if len(s.flashes) == 0 {
+				s.flashes = []flash{{"secret", genStr(r, false), genLevel(r, false)}}
+				s.wipos = []int{r.Intn(2)}
+			}
+			ends = append(ends, gen.Pick(r, []string{"ok", "ok", "back", "back", "to"}))
+		} else {
+			if len(s.olds) > 1 && r.Bool() {
+				s.olds = s.olds[:1]
+			}
+			if len(s.olds) > 0 && len(s.wipos) == 0 {
+				s.wipos = []int{len(s.flashes)}
+			}
+			ends = append(ends, "to")
+		}
+		w.Count("ish-end-" + ends[i])
+		steps = append(steps, s)
+	}
+	return steps, ends
+}
+
 // ---- msgpack builders for the decode stream -----------------------------------------------------
 
 func mpStr(s string) []byte {
